@@ -161,8 +161,9 @@ claim("C05",
       "translate_cid, the computation of the inferred name, HashMap / HashSet / NameGenerator are shims by contract; the iteration of retain() and "
       "the search of the Select in the CTE pipeline are dropped by the slices.")
 
-prop("C10", ["resolve_guards", "name_lookup", "lineage_except", "frame_decls"],
-     select={"lineage_except": lambda n: n.split(".", 1)[1] in ("IC1", "IC2", "LE1", "LE2", "LE3", "SH1", "shadow_one.safety")},
+prop("C10", ["resolve_guards", "name_lookup", "lineage_except", "frame_decls", "resolver_unwraps", "module_names"],
+     select={"lineage_except": lambda n: n.split(".", 1)[1] in ("IC1", "IC2", "LE1", "LE2", "LE3", "SH1", "shadow_one.safety"),
+             "resolver_unwraps": lambda n: n.split(".", 1)[1] in ("XA1", "WS1", "exclusion_arg.safety", "wildcard_self.safety")},
      not_covered="NS_INFER declarations (what resolve_ident_fallback infers), insert_frame (which columns a frame declares after select / "
                  "aggregate / group), resolve_ident_fallback inference, validate_expr_type (scalar where a relation is required), lowering's "
                  "`cannot find cid` paths: HashMap-of-Decl recursion; a regression there is not detected by this check")
